@@ -43,6 +43,36 @@ def build():
     return p
 
 
+RAC2 = os.path.join(ROOT, "rac2")
+CARGO2_TOML = """[package]
+name = "rac2"
+version = "0.1.0"
+edition = "2021"
+
+[dependencies]
+join = { path = "%s/join" }
+futures = "0.3.0"
+tokio = { version = "1.0.1", features = ["rt", "rt-multi-thread", "time", "macros"] }
+
+[workspace]
+
+[profile.dev]
+debug = 0
+"""
+
+
+def build2():
+    want = CARGO2_TOML % REPO
+    ct = os.path.join(RAC2, "Cargo.toml")
+    if not os.path.exists(ct) or open(ct).read() != want:
+        open(ct, "w").write(want)
+    lock = os.path.join(RAC2, "Cargo.lock")
+    if not os.path.exists(lock):
+        import shutil
+        shutil.copy(os.path.join(REPO, "Cargo.lock"), lock)
+    return subprocess.run(["cargo", "build", "--offline"], cwd=RAC2, env=ENV, capture_output=True, text=True)
+
+
 def run(pid, fams, tier, rdir, seed):
     t0 = time.time()
     res = {"cases": 0, "passed": 0, "violations": [], "undecided": [], "coverage": {"families": {}, "samples": []},
@@ -53,7 +83,15 @@ def run(pid, fams, tier, rdir, seed):
         return res
     exe = os.path.join(RAC, "target", "debug", "rac")
     for fam in fams:
-        p = subprocess.run([exe, fam, tier], capture_output=True, text=True, timeout=3600)
+        if fam == "spawn_agree":
+            b2 = build2()
+            if b2.returncode != 0:
+                # the programs are well-typed under the plain macros: a compile error in the spawn expansion is reported
+                res["undecided"].append("R: spawn_agree programs did not build: %s" % b2.stderr[-600:])
+                continue
+            p = subprocess.run([os.path.join(RAC2, "target", "debug", "rac2"), "3" if tier == "quick" else "25"], capture_output=True, text=True, timeout=3600)
+        else:
+            p = subprocess.run([exe, fam, tier], capture_output=True, text=True, timeout=3600)
         line = next((l for l in p.stdout.split("\n") if l.startswith("{")), None)
         if p.returncode != 0 or line is None:
             res["undecided"].append("R: family %s did not finish (exit %d): %s" % (fam, p.returncode, p.stderr[-300:]))
